@@ -7,6 +7,7 @@
 (*   Mkstemp                         openat("/tmp/cproc-XXXXXX", O_CREAT|O_EXCL)       *)
 (*   Spawn{stage, ok}                clone + the child's execve result                 *)
 (*   CloseW                          close() of the write end of the pipe just made     *)
+(*   CloseR{pipe}                    close() of a read end the driver held (none today) *)
 (*   Wait{stage, status}             wait4(-1) returned that stage; ok | exit1 | sig    *)
 (*   Kill{stages}                    consecutive kill(pid, SIGTERM)                      *)
 (*   Unlink{paths}                   consecutive unlink(): model names tmpK / outK       *)
@@ -53,14 +54,32 @@ Reset ==
   /\ files' = {} /\ linkStarted' = FALSE /\ failed' = FALSE /\ early' = {}
   /\ Adv
 
+(* kill: — the property asks that the remaining stages be terminated (checked by outcome: no survivor, no hang);
+   what a trace must respect is that only stages that still have a pid (live or un-reaped) are ever signalled.  *)
+TKill(S) ==
+  /\ pc = "kill"
+  /\ S \subseteq {s \in Stages : haspid[s]}
+  /\ ch' = [s \in Stages |-> IF s \in S THEN [ch[s] EXCEPT !.term = TRUE] ELSE ch[s]]
+  /\ success' = FALSE /\ pc' = "wait"
+  /\ UNCHANGED <<cfg, cur, si, npids, haspid, wret, output, exitc, lk, pipes, files, linkStarted, failed, early>>
+
+(* unlink(): only the output of the failing pipeline and temporary objects may be removed (never a file of the user) *)
+TUnlink(P, allowed, to) ==
+  /\ P \subseteq allowed
+  /\ files' = files \ P /\ pc' = to
+  /\ UNCHANGED <<cfg, cur, si, npids, success, haspid, wret, output, exitc, ch, lk, pipes, linkStarted, failed, early>>
+
 Logged ==
   \/ IsEvent("Mkstemp") /\ Mkstemp
   \/ IsEvent("Spawn") /\ Ev.stage = si /\ ((Ev.ok /\ SpawnOk) \/ (~Ev.ok /\ SpawnErr))
   \/ IsEvent("CloseW") /\ CloseWriteEnd
   \/ IsEvent("Wait") /\ Ev.stage \in Stages /\ ch[Ev.stage].status = Ev.status /\ Wait(Ev.stage)
-  \/ IsEvent("Kill") /\ success /\ npids > 0 /\ ToSet(Ev.stages) = {s \in Stages : haspid[s]} /\ KillRemaining
+  \/ IsEvent("Kill") /\ TKill(ToSet(Ev.stages))
+  \/ IsEvent("CloseR") /\ Ev.pipe \in Stages /\ pipes' = [pipes EXCEPT ![Ev.pipe].r = @ \ {0}]
+        /\ UNCHANGED <<cfg, pc, cur, si, npids, success, haspid, wret, output, exitc, ch, lk, files, linkStarted, failed, early>>
   \/ IsEvent("Unlink") /\ pc = "unlink" /\ output # NONE /\ output \in ToSet(Ev.paths)
-        /\ ToSet(Ev.paths) \subseteq ({output} \cup (IF "TempLeak" \in Devs THEN {} ELSE Temps)) /\ UnlinkOutput
+        /\ TUnlink(ToSet(Ev.paths), {output} \cup Temps, "exit1")
+  \/ IsEvent("Unlink") /\ pc = "exited" /\ TUnlink(ToSet(Ev.paths), Temps, "exited")       \* clean-up on the way out of fatal()
   \/ IsEvent("Unlink") /\ pc = "unlinktemps" /\ ToSet(Ev.paths) = {TmpOf(k) : k \in 1..cfg.ni} /\ UnlinkTemps
   \/ IsEvent("SpawnLink") /\ ((Ev.ok /\ SpawnLinkOk) \/ (~Ev.ok /\ SpawnLinkErr))
   \/ IsEvent("WaitLink") /\ lk.status = Ev.status /\ WaitLink
@@ -72,7 +91,7 @@ Logged ==
 Unlogged ==
   \/ NameOutput
   \/ MatchPid
-  \/ ~(success /\ npids > 0) /\ KillRemaining
+  \/ TKill({})
   \/ WaitDone
   \/ output = NONE /\ UnlinkOutput
   \/ NextInput /\ pc' # "exited"
